@@ -586,7 +586,10 @@ func c19Run(c c19Case, root string, r *c19Result) {
 		failf("%s", msg)
 		return
 	}
-	periodStart := start // when the current file's period began (names the next backup)
+	// when the current file's period began (names the next backup): known exactly when no
+	// virtual time passes within a step, otherwise bracketed by the step's start and end
+	periodLo, periodHi := start, start
+	stepStart := start
 	// held: a descriptor on the current file, kept open between two snapshots. A
 	// rotation is recognised by the path naming another file than the descriptor
 	// (the inode cannot be reused while it is open), and the content of a backup
@@ -675,11 +678,16 @@ func c19Run(c c19Case, root string, r *c19Result) {
 		if pf := prev[c.Base]; pf != nil && !bytes.HasPrefix(cf.data, pf.data) {
 			rotated = true
 		}
-		expT := periodStart // instant that names the backup made by this step's rotation
-		if c.Rule == "daily" {
-			expT = c19Day(periodStart)
-		} else {
-			expT = periodStart.Truncate(time.Second)
+		// instants that may name the backup made by this step's rotation
+		var expTs []time.Time
+		for _, p := range []time.Time{periodLo, periodHi} {
+			x := p.Truncate(time.Second)
+			if c.Rule == "daily" {
+				x = c19Day(p)
+			}
+			if len(expTs) == 0 || !expTs[0].Equal(x) {
+				expTs = append(expTs, x)
+			}
 		}
 		// backups that existed at some point of this step (for the "newest N" ranking)
 		var times []time.Time
@@ -693,8 +701,18 @@ func c19Run(c c19Case, root string, r *c19Result) {
 			}
 		}
 		if rotated {
-			if n := e.backupName(expT, c.Compress); !seen[n] {
-				times = append(times, expT)
+			for _, expT := range expTs {
+				if n := e.backupName(expT, c.Compress); !seen[n] {
+					times = append(times, expT)
+				}
+			}
+		}
+		// bornOutdated: the backup made by this step's rotation is absent and its name was
+		// already older than the retention days, so the clean-up removed it at once
+		bornOutdated := false
+		for _, expT := range expTs {
+			if rotated && cur[e.backupName(expT, c.Compress)] == nil && c.Days > 0 && e.older(expT, now, c.Days) {
+				bornOutdated = true
 			}
 		}
 		justified := func(bt time.Time) bool {
@@ -812,10 +830,8 @@ func c19Run(c c19Case, root string, r *c19Result) {
 					// its backup was removed in this step; (c) has judged the removal
 					gone[id] = true
 					continue
-				case rotated && oldRecs[id] &&
-					cur[e.backupName(expT, c.Compress)] == nil && c.Days > 0 && e.older(expT, now, c.Days):
-					// it was in the file rotated in this step, whose backup name is already
-					// older than the retention days, so the clean-up removed it at once
+				case rotated && oldRecs[id] && bornOutdated:
+					// it was in the file rotated in this step
 					gone[id] = true
 					r.classes["backup-outdated-at-birth"] = true
 					continue
@@ -888,7 +904,7 @@ func c19Run(c c19Case, root string, r *c19Result) {
 		}
 		if rotated {
 			r.rotations++
-			periodStart = now
+			periodLo, periodHi = stepStart, now
 			if held != nil {
 				held.Close()
 				held = nil
@@ -917,6 +933,7 @@ func c19Run(c c19Case, root string, r *c19Result) {
 			time.Sleep(time.Duration(st.N) * 24 * time.Hour)
 		}
 		first := count[0] + 1
+		stepStart = time.Now()
 		if c.Mode == "" {
 			var shared []byte
 			for k, n := range st.Lens {
